@@ -198,6 +198,28 @@ struct FmtB
         return m;
     }
 };
+// formatters with other RETURN TYPES: a C string / a reference into a per-thread buffer (what a formatter
+// that avoids a temporary per record looks like); the sink receives whatever format() returns
+template <typename R>
+struct FmtC
+{
+    const char* format(R& r)
+    {
+        static thread_local std::string buf;
+        buf = "\x02" + r.message() + "\x03";
+        return buf.c_str();
+    }
+};
+template <typename R>
+struct FmtR
+{
+    const std::string& format(R& r)
+    {
+        static thread_local std::string buf;
+        buf = "\x02" + r.message() + "\x03";
+        return buf;
+    }
+};
 template <typename R>
 using Filter = nitro::log::filter::severity_filter<R>;
 
@@ -206,6 +228,10 @@ using L2 = nitro::log::logger<Rec, FmtB, nitro::log::sink::stdout_mt, Filter>;
 using L3 = nitro::log::logger<Rec, Fmt, nitro::log::sink::sequence<nitro::log::sink::stdout_mt, nitro::log::sink::StdErrThreaded>,
                               Filter>;
 using L4 = nitro::log::logger<Rec, Fmt, nitro::log::sink::StdErrThreaded, Filter>;
+using L1c = nitro::log::logger<Rec, FmtC, nitro::log::sink::stdout_mt, Filter>;
+using L1r = nitro::log::logger<Rec, FmtR, nitro::log::sink::stdout_mt, Filter>;
+using L4c = nitro::log::logger<Rec, FmtC, nitro::log::sink::StdErrThreaded, Filter>;
+using L4r = nitro::log::logger<Rec, FmtR, nitro::log::sink::StdErrThreaded, Filter>;
 
 static std::string payload(unsigned tid, unsigned seq, unsigned len)
 {
@@ -448,7 +474,13 @@ int main(int argc, char** argv)
                 switch (topo)
                 {
                 case 1:
-                    statement<L1>(t, s, len, named);
+                    // the threads use formatters of three return types on the same sink
+                    if (t % 3 == 1)
+                        statement<L1c>(t, s, len, named);
+                    else if (t % 3 == 2)
+                        statement<L1r>(t, s, len, named);
+                    else
+                        statement<L1>(t, s, len, named);
                     break;
                 case 2:
                     if (t % 2)
@@ -460,7 +492,12 @@ int main(int argc, char** argv)
                     statement<L3>(t, s, len, named);
                     break;
                 default:
-                    statement<L4>(t, s, len, named);
+                    if (t % 3 == 1)
+                        statement<L4c>(t, s, len, named);
+                    else if (t % 3 == 2)
+                        statement<L4r>(t, s, len, named);
+                    else
+                        statement<L4>(t, s, len, named);
                     break;
                 }
                 in_statement.fetch_sub(1, std::memory_order_relaxed);
